@@ -303,6 +303,31 @@ theorem newBlock_seqLt (n seq0 : Nat) : (newBlock n seq0 none).SeqLt := by
   simp only [newBlock, List.getElem?_replicate] at h
   split at h <;> cases h
 
+/-! ## 8. block deletion (`empty()`) must not discard a cooldown -/
+
+/-- `empty()` gates every deletion of a block (releaseBlockAffinity, ReleaseIPs / ReleaseByHandle on a block
+without affinity). A block it calls empty holds NO address in cooldown (in every reachable block a cooldown
+attribute has no handle, `WF.cool`), so deleting it cannot discard a `ReleasedAt` stamp and let the address be
+handed out again inside its cooldown by whoever claims the CIDR next. -/
+theorem empty_has_no_cooling_address {b : Block} (hw : WF b) (he : b.isEmpty = true) (o r : Nat) : ¬ b.CoolingAt o r := by
+  rintro ⟨a, ha, hr⟩
+  obtain ⟨hd, hh, _⟩ := isEmpty_attr he o a ha
+  have hmem : a ∈ b.attrs := by
+    unfold Block.attrAt at ha
+    split at ha
+    · exact List.mem_of_getElem? ha
+    · cases ha
+  have := hw.cool a hmem (by simp [hr])
+  rw [this] at hh; cases hh
+
+/-- … and every live address of an "empty" block belongs to the Windows reserved handle. -/
+theorem empty_only_reserved_live {b : Block} (he : b.isEmpty = true) (o : Nat) (a : Attr) (hl : b.LiveAt o a) :
+    ∃ hd, a.handle = some hd ∧ lowerH hd = windowsReservedHandle := isEmpty_attr he o a hl.1
+
+-- non-vacuity: a fresh block is empty; a block with a cooling address is not (cooldown 5, released at t=0)
+example : (newBlock 4 7 none).isEmpty = true := by decide
+example : (run { blk := newBlock 4 7 none, now := 0 } [.auto 2 (some [97]) 2 [], .bump, .release 5 [⟨0, none, []⟩], .release 5 [⟨1, none, []⟩]]).blk.isEmpty = false := by decide
+
 /-- Well-formedness is an invariant of every history from a freshly created block (so the
 hypothesis `WF` of the theorems above is satisfied by every reachable block). -/
 theorem reachable_WF (n seq0 t : Nat) (ops : List Op) : WF (run { blk := newBlock n seq0 none, now := t } ops).blk :=
